@@ -6,6 +6,7 @@ import (
 	"go/types"
 	"os"
 	"sort"
+	"strconv"
 	"strings"
 
 	"golang.org/x/tools/go/ssa"
@@ -205,8 +206,29 @@ func (e *Exec) localEnv(s *State) func(string) (Value, bool) {
 			return Value{T: &GhostMap{K: kt, V: tBool}, S: []string{e.compTerm(s, comp, sortS)}}, true
 		}
 		var best *ssa.Alloc
+		want := 0 // "name#k": the k-th declaration of that name in source order
+		if i := strings.LastIndex(name, "#"); i > 0 {
+			if k, err := strconv.Atoi(name[i+1:]); err == nil && k > 0 {
+				want, name = k, name[:i]
+			}
+		}
+		seen := 0
 		consider := func(a *ssa.Alloc) {
 			if a.Comment != name {
+				return
+			}
+			if want > 0 {
+				seen++
+				if seen != want {
+					return
+				}
+				if !a.Heap {
+					if _, ok := s.cells[a]; ok {
+						best = a
+					}
+				} else if _, ok := e.vals[a]; ok {
+					best = a
+				}
 				return
 			}
 			if !a.Heap {
